@@ -871,6 +871,9 @@ func main() {
 		writeIfChanged(filepath.Join(filepath.Dir(*funcsPath), "GenDecrypt.v"), emitDecryptFuncs(types, tenv))
 		writeIfChanged(filepath.Join(filepath.Dir(*funcsPath), "GenTree.v"), treeOut)
 		writeIfChanged(filepath.Join(filepath.Dir(*funcsPath), "GenBuild.v"), buildOut)
+		for name, data := range unitOut {
+			writeIfChanged(filepath.Join(filepath.Dir(*funcsPath), name), data)
+		}
 	}
 	if *litPath != "" {
 		writeIfChanged(*litPath, collectLiterals(root, types, uuid))
